@@ -332,6 +332,21 @@ func runHistory(c *Ctx, caseIdx int, rng *rand.Rand, o *HistOpts) *HistRun {
 			c.Err(caseIdx, fmt.Sprintf("block %d", h), err)
 			return hr
 		}
+		if os.Getenv("VERIF_DEBUG_BLOCKS") != "" {
+			ok, bad, firstBad, lastOk := 0, 0, -1, -1
+			for i := range txs {
+				if res.Txs[i].Code == 0 {
+					ok++
+					lastOk = i
+				} else {
+					bad++
+					if firstBad < 0 {
+						firstBad = i
+					}
+				}
+			}
+			fmt.Printf("DEBUGBLK %s h=%d txs=%d ok=%d bad=%d firstBad=%d lastOk=%d lastLabel=%s lastCode=%d\n", o.Name, h, len(txs), ok, bad, firstBad, lastOk, txs[len(txs)-1].Label, res.Txs[len(txs)-1].Code)
+		}
 		hr.Results = append(hr.Results, res)
 		hr.AppHash = res.Commit.Data
 		for i, t := range txs {
